@@ -44,6 +44,25 @@ func codecReplayOracle(r *Result, ops, impl []string) {
 	}
 }
 
+// the oracle's own calls of the decoders: a panic becomes an error (the comparison with the model reports the input)
+func safeDecStr(rd io.Reader) (s string, err error) {
+	defer func() {
+		if e := recover(); e != nil {
+			err = fmt.Errorf("panic: %v", e)
+		}
+	}()
+	return absnfs.VerifXdrDecodeString(rd)
+}
+
+func safeDecFh(rd io.Reader) (h uint64, err error) {
+	defer func() {
+		if e := recover(); e != nil {
+			err = fmt.Errorf("panic: %v", e)
+		}
+	}()
+	return absnfs.VerifXdrDecodeFileHandle(rd)
+}
+
 func u32(v uint32) []byte { b := make([]byte, 4); binary.BigEndian.PutUint32(b, v); return b }
 func u64(v uint64) []byte { b := make([]byte, 8); binary.BigEndian.PutUint64(b, v); return b }
 
@@ -244,7 +263,7 @@ func checkC13(r *Result, rng *rand.Rand, thorough bool) {
 			add("encstr", "xdr encstr "+hx(s))
 			// oracle: round trip + exact consumption
 			rd := bytes.NewReader(enc)
-			got, err := absnfs.VerifXdrDecodeString(rd)
+			got, err := safeDecStr(rd)
 			pad := (4 - n%4) % 4
 			if err != nil || got != string(s) || !bytes.Equal(rest(bytes.NewReader(enc[4+n+pad:])), tail) || rd.Len() != len(tail) {
 				r.violate(Violation{Class: "C13/string-roundtrip", What: fmt.Sprintf("string of %d bytes did not round-trip exactly (err=%v, left=%d want %d)", n, err, rd.Len(), len(tail)), Ops: []string{"xdr decstr " + hx(enc)}})
@@ -274,18 +293,18 @@ func checkC13(r *Result, rng *rand.Rand, thorough bool) {
 						continue
 					}
 					add("decstr-trunc", "xdr decstr "+hx(xdrOpaque(s)[:k]))
-					if _, err := absnfs.VerifXdrDecodeString(bytes.NewReader(xdrOpaque(s)[:k])); err == nil {
+					if _, err := safeDecStr(bytes.NewReader(xdrOpaque(s)[:k])); err == nil {
 						r.violate(Violation{Class: "C13/string-truncation-accepted", What: fmt.Sprintf("truncated string encoding (%d of %d bytes) accepted", k, 4+n+pad), Ops: []string{"xdr decstr " + hx(xdrOpaque(s)[:k])}})
 					}
 				}
 			}
 		}
 		// oversize declared lengths: rejected, no big allocation
-		for _, n := range []uint32{8193, 8194, 65536, 1 << 20, 1 << 30, 0x7fffffff, 0xffffffff} {
+		for _, n := range []uint32{8193, 8194, 8195, 8196, 65536, 1 << 20, 1 << 30, 0x7fffffff, 0x80000000, 0xfffffffc, 0xfffffffd, 0xfffffffe, 0xffffffff} {
 			in := append(u32(n), randBytes(rng, 16)...)
 			add("decstr-oversize", "xdr decstr "+hx(in))
 			var err error
-			d := allocDelta(func() { _, err = absnfs.VerifXdrDecodeString(bytes.NewReader(in)) })
+			d := allocDelta(func() { _, err = safeDecStr(bytes.NewReader(in)) })
 			if err == nil || d > 16384 {
 				r.violate(Violation{Class: "C13/string-limit", What: fmt.Sprintf("declared string length %d: err=%v allocated=%d bytes", n, err, d), Ops: []string{"xdr decstr " + hx(in)}})
 			}
@@ -294,7 +313,7 @@ func checkC13(r *Result, rng *rand.Rand, thorough bool) {
 		for _, n := range []int{8193, 8196, 16384} {
 			in := xdrOpaque(noNul(rng, n))
 			add("decstr-oversize-full", "xdr decstr "+hx(in))
-			if _, err := absnfs.VerifXdrDecodeString(bytes.NewReader(in)); err == nil {
+			if _, err := safeDecStr(bytes.NewReader(in)); err == nil {
 				r.violate(Violation{Class: "C13/string-limit", What: fmt.Sprintf("a complete %d-byte string (limit 8192) was accepted", n), Ops: []string{"xdr decstr " + hx(in)}})
 			}
 		}
@@ -317,7 +336,7 @@ func checkC13(r *Result, rng *rand.Rand, thorough bool) {
 			in := xdrOpaque(randBytes(rng, n))
 			add("decfh-oversize-full", "xdr decfh "+hx(in))
 			var err error
-			d := allocDelta(func() { _, err = absnfs.VerifXdrDecodeFileHandle(bytes.NewReader(in)) })
+			d := allocDelta(func() { _, err = safeDecFh(bytes.NewReader(in)) })
 			if err == nil {
 				r.violate(Violation{Class: "C13/fh-limit", What: fmt.Sprintf("a complete %d-byte file handle (limit 64) was accepted", n), Ops: []string{"xdr decfh " + hx(in)}})
 			}
@@ -338,8 +357,8 @@ func checkC13(r *Result, rng *rand.Rand, thorough bool) {
 				// oracle (independent of the model): a complete wrong-size handle is consumed with its padding,
 				// so the next item decodes as it was encoded
 				rd := bytes.NewReader(withNext)
-				_, err := absnfs.VerifXdrDecodeFileHandle(rd)
-				next, nerr := absnfs.VerifXdrDecodeString(rd)
+				_, err := safeDecFh(rd)
+				next, nerr := safeDecStr(rd)
 				if err == nil || nerr != nil || next != "next-item" || rd.Len() != 0 {
 					r.violate(Violation{Class: "C13/fh-refusal-desync", What: fmt.Sprintf("after a refused %d-byte file handle the next item decodes as %q (err %v, %d bytes left) instead of \"next-item\": the handle was not consumed with its padding", l, next, nerr, rd.Len()), Ops: []string{"xdr decfh " + hx(withNext)}})
 				}
@@ -349,7 +368,7 @@ func checkC13(r *Result, rng *rand.Rand, thorough bool) {
 			}
 			if l > 64 {
 				var err error
-				d := allocDelta(func() { _, err = absnfs.VerifXdrDecodeFileHandle(bytes.NewReader(in)) })
+				d := allocDelta(func() { _, err = safeDecFh(bytes.NewReader(in)) })
 				if err == nil || d > 8192 {
 					r.violate(Violation{Class: "C13/fh-limit", What: fmt.Sprintf("declared handle length %d: err=%v allocated=%d", l, err, d), Ops: []string{"xdr decfh " + hx(in)}})
 				}
@@ -367,7 +386,7 @@ func checkC13(r *Result, rng *rand.Rand, thorough bool) {
 			absnfs.VerifXdrEncodeFileHandle(&b, h)
 			tail := randBytes(rng, rng.Intn(5))
 			rd := bytes.NewReader(append(b.Bytes(), tail...))
-			got, err := absnfs.VerifXdrDecodeFileHandle(rd)
+			got, err := safeDecFh(rd)
 			if err != nil || got != h || rd.Len() != len(tail) {
 				r.violate(Violation{Class: "C13/fh-roundtrip", What: fmt.Sprintf("handle %d did not round-trip", h), Ops: []string{fmt.Sprintf("xdr encfh %d", h)}})
 			}
